@@ -126,6 +126,7 @@ func (x *Exec) world(task string, op Op) {
 		m &= 0o7777 // (bit 0o100000 marks an explicit mode, e.g. chmod 0)
 		err = unix.Chmod(op.P, uint32(m))
 	case OpUnlink:
+		x.noteRemoval(op.P)
 		err = unix.Unlink(op.P)
 	case OpMkdir:
 		err = unix.Mkdir(op.P, 0o755)
@@ -133,8 +134,10 @@ func (x *Exec) world(task string, op Op) {
 			x.sim.Track(op.P)
 		}
 	case OpRmdir:
+		x.noteRemoval(op.P)
 		err = unix.Rmdir(op.P)
 	case OpRename:
+		x.noteRemoval(op.P2)
 		err = unix.Rename(op.P, op.P2)
 	case OpLink:
 		err = unix.Link(op.P, op.P2)
@@ -192,6 +195,14 @@ func (x *Exec) world(task string, op Op) {
 	x.WorldLog = append(x.WorldLog, wr)
 }
 
+// noteRemoval records which inode is about to lose the directory entry p.
+func (x *Exec) noteRemoval(p string) {
+	var st unix.Stat_t
+	if unix.Lstat(p, &st) == nil {
+		x.Removed = append(x.Removed, RemovedRec{Step: step(), Ino: st.Ino})
+	}
+}
+
 func (x *Exec) rmrf(p string) {
 	ents, err := os.ReadDir(p)
 	if err == nil {
@@ -200,13 +211,16 @@ func (x *Exec) rmrf(p string) {
 			if e.IsDir() {
 				x.rmrf(c)
 			} else {
+				x.noteRemoval(c)
 				unix.Unlink(c)
 				x.sim.Dirty = true
 				ssim.Yield("world")
 			}
 		}
+		x.noteRemoval(p)
 		unix.Rmdir(p)
 	} else {
+		x.noteRemoval(p)
 		unix.Unlink(p)
 	}
 	x.sim.Dirty = true
